@@ -1788,15 +1788,96 @@ Proof.
   clearbody R R'.
   apply map_ext_in. intros j Hj. apply in_seq in Hj.
   destruct (t_rc t) eqn:Hrc.
-  - unfold n_in in Hj |- *. rewrite ?Hrc in Hj |- *.
-    Show. destruct (wf_rc c W Hrc) as [Hlen _]. cbn [c c_t] in Hlen.
+  - unfold n_in in Hj |- *. rewrite Hrc in Hj |- *.
+    pose proof (wf_rc c W Hrc) as Hlen. apply proj1 in Hlen. unfold c in Hlen. cbn [c_t] in Hlen.
     rewrite !merge_rc_nth by lia. cbn zeta.
     destruct (nostrand_inv _ _ (Hrows j ltac:(lia))) as [A1 [A2 [A3 A4]]].
     destruct (nostrand_inv _ _ (Hrows (j + length (t_lens t) / 2)%nat ltac:(lia))) as [B1 [B2 [B3 B4]]].
     rewrite A1, A2, A3, A4, B1, B2, B3, B4. reflexivity.
-  - unfold n_in in Hj |- *. rewrite ?Hrc in Hj |- *. unfold clear_strand.
+  - unfold n_in in Hj |- *. rewrite Hrc in Hj. unfold clear_strand.
     replace (j <? length (t_lens t))%nat with true by lia.
     destruct (nostrand_inv _ _ (Hrows j ltac:(lia))) as [A1 [A2 [A3 A4]]].
     rewrite A1, A2, A3, A4. reflexivity.
 Qed.
 End Indep.
+
+(* ================================================================== strand merge *)
+Definition merged (a b : rrow) : rrow :=
+  let p := psq (pmin (r_p a) (r_p b)) in
+  if r_score a <=? r_score b then mkrr p (r_score b) (r_off b) (r_ovl b) 1
+  else mkrr p (r_score a) (r_off a) (r_ovl a) 0.
+
+(* strand_merge: the p-value is 1-(1-min p)^2, the higher-scoring strand is reported *)
+Lemma strand_merge n R i : (i < n)%nat ->
+  let m := merge_rc n R i in let a := R i in let b := R (i + n)%nat in
+  r_p m = psq (pmin (r_p a) (r_p b)) /\ r_score m = Z.max (r_score a) (r_score b) /\
+  (r_score a < r_score b -> r_strand m = 1 /\ r_off m = r_off b /\ r_ovl m = r_ovl b) /\
+  (r_score b < r_score a -> r_strand m = 0 /\ r_off m = r_off a /\ r_ovl m = r_ovl a).
+Proof.
+  intros Hi. cbn zeta. rewrite merge_rc_nth by exact Hi. cbn zeta.
+  destruct (r_score (R i) <=? r_score (R (i + n)%nat)) eqn:E; cbn [r_p r_score r_strand r_off r_ovl];
+    repeat split; try lia; intros; lia.
+Qed.
+
+(* reverse-complementing the targets (the two strands change places) changes only the reported
+   strand, provided the two strands score differently (on a tie the code reports strand 1 both times) *)
+Lemma strand_swap a b : r_score a <> r_score b -> 0 < snd (r_p a) -> 0 < snd (r_p b) ->
+  let m1 := merged a b in let m2 := merged b a in
+  peq (r_p m1) (r_p m2) /\ r_score m1 = r_score m2 /\ r_off m1 = r_off m2 /\ r_ovl m1 = r_ovl m2 /\
+  r_strand m1 = 1 - r_strand m2.
+Proof.
+  intros Hne Ha Hb. unfold merged.
+  assert (Hp : peq (psq (pmin (r_p a) (r_p b))) (psq (pmin (r_p b) (r_p a)))).
+  { apply psq_peq. unfold pmin.
+    destruct (fst (r_p a) * snd (r_p b) <=? fst (r_p b) * snd (r_p a)) eqn:E1;
+    destruct (fst (r_p b) * snd (r_p a) <=? fst (r_p a) * snd (r_p b)) eqn:E2; unfold peq; repeat split; auto; lia. }
+  destruct (r_score a <=? r_score b) eqn:E1; destruct (r_score b <=? r_score a) eqn:E2;
+    cbn [r_p r_score r_strand r_off r_ovl]; try lia; repeat split; auto; try lia;
+    unfold peq in *; intuition lia.
+Qed.
+
+(* ================================================================== self match *)
+Lemma sumZ_map_le {T} (f g : T -> Z) l : (forall x, In x l -> f x <= g x) -> sumZ (map f l) <= sumZ (map g l).
+Proof.
+  induction l as [|x l IH]; intros H; cbn [map]; rewrite ?sumZ_nil, ?sumZ_cons; [lia|].
+  assert (f x <= g x) by (apply H; left; reflexivity).
+  assert (sumZ (map f l) <= sumZ (map g l)) by (apply IH; intros; apply H; right; assumption). lia.
+Qed.
+
+(* a query compared with a target equal to itself (the target's column i is the unique column that
+   is most similar to query column i, and at least as similar as the median): the best score is
+   the one of relative offset 0, which has full overlap *)
+Lemma self_match c total : WF c ->
+  let nq := q_nq (c_q c) in
+  (forall i j, (i < nq)%nat -> xval c j i <= xval c (tcol c total 0 i) i) ->
+  (forall i, (i < nq)%nat -> off_z c <= xval c (tcol c total 0 i) i) ->
+  best_ref c total nq = score_at c total nq 0 /\ overlap_at c nq 0 = Z.of_nat nq.
+Proof.
+  intros W nq Hmax Hmed. pose proof (wf_nq c W) as Hnq. fold nq in Hnq.
+  assert (Hal : forall i, In i (qcols c) -> aligned nq 0 i = true).
+  { intros i Hi. unfold qcols in Hi. apply in_seq in Hi. fold nq in Hi. unfold aligned. lia. }
+  split.
+  - unfold best_ref. apply maxZ_is.
+    + apply in_map. unfold offsets. fold nq. apply in_map_iff. exists (nq - 1)%nat. split; [lia|].
+      apply in_seq. lia.
+    + intros x Hx. apply in_map_iff in Hx as [o [<- _]]. unfold score_at.
+      apply sumZ_map_le. intros i Hi. rewrite (Hal i Hi).
+      unfold qcols in Hi. apply in_seq in Hi. fold nq in Hi.
+      destruct (aligned nq o i); [apply Hmax; lia|apply Hmed; lia].
+    + apply (score_range c W (fun _ => [])).
+  - unfold overlap_at. rewrite filter_true by exact Hal. unfold qcols. rewrite seq_length. reflexivity.
+Qed.
+
+(* ================================================================== integerise_monotone *)
+From Coq Require Import Qround.
+(* the integerisation of the float stage, x = floor((gamma - median) * scale + 1/2) with
+   gamma = -distance, as a function of the Euclidean distance to one query column *)
+Definition integerise (med scale dist : Q) : Z := Qfloor ((- dist - med) * scale + (1 # 2)).
+Lemma integerise_monotone med scale d1 d2 : (0 <= scale)%Q -> (d1 <= d2)%Q ->
+  integerise med scale d2 <= integerise med scale d1.
+Proof.
+  intros Hs Hd. unfold integerise. apply Qfloor_resp_le.
+  apply Qplus_le_compat; [|apply Qle_refl].
+  apply Qmult_le_compat_r; [|exact Hs].
+  apply Qplus_le_compat; [|apply Qle_refl]. apply Qopp_le_compat. exact Hd.
+Qed.
